@@ -82,7 +82,15 @@ func c39Exec(r *sgRun, ps *sgPeerState, rec *sgRec, op sgOp, i int) {
 		}
 	} else if m&c39SameCerts != 0 {
 		nc.Certificates = before.Certificates
-		if len(before.Certificates) > 1 {
+		if (m>>13)&3 == 3 && len(before.Certificates) > 0 {
+			// the existing certificates with another one appended: a change as well
+			if sk, err := ecdsa.GenerateKey(elliptic.P256(), rand.Reader); err == nil {
+				if ct, err := GenerateCertificate(sk); err == nil {
+					nc.Certificates = append(append([]Certificate{}, before.Certificates...), *ct)
+					mustReject = "certificates"
+				}
+			}
+		} else if len(before.Certificates) > 1 {
 			// with several certificates: a strict prefix, a reordering — both are changes
 			switch (m >> 13) & 3 {
 			case 1:
@@ -179,8 +187,10 @@ func sgGenPeerCfg(r *vfRand, prop string) sgPeerCfg {
 		c.Bundle = r.Intn(4)
 		c.AlwaysDC = r.Bool(0.3)
 		c.MediaFP = r.Bool(0.3)
-	case "C10", "C16":
+	case "C10":
 		c.Codecs = r.Intn(4)
+	case "C16":
+		c.Codecs = vfPick(r, []int{0, 1, 2, 3, 5})
 	case "C12":
 		c.AlwaysDC = r.Bool(0.25)
 		c.Codecs = vfPick(r, []int{0, 0, 1, 2, 4, 4})
@@ -306,7 +316,12 @@ func sgGenFor(prop string) func(seed uint64, idx, total int, tier string) any {
 						ops = append(ops, sgOp{Kind: "remote-raw", Peer: p, A: 3, B: r.Intn(2)})
 					}
 				case x < 15 && prop == "C03":
-					ops = append(ops, sgOp{Kind: "deliver", Peer: p, A: r.Intn(3), S: vfPick(r, sgTamperClasses)})
+					if r.Bool(0.3) {
+						// text that is not SDP at all, under every description type
+						ops = append(ops, sgOp{Kind: "remote-raw", Peer: p, A: r.Intn(3), B: 2})
+					} else {
+						ops = append(ops, sgOp{Kind: "deliver", Peer: p, A: r.Intn(3), S: vfPick(r, sgTamperClasses)})
+					}
 				case x < 16 && prop == "C01" && r.Bool(0.5):
 					// an answerer that applies a provisional answer, then an answer arrives from either side
 					q := 1 - p
@@ -384,6 +399,9 @@ func sgGenFor(prop string) func(seed uint64, idx, total int, tier string) any {
 							m |= 1 << b
 						}
 					}
+					if r.Bool(0.15) {
+						m = (m | c39SameCerts | 3<<13) &^ c39Certs // the certificate list with one more appended
+					}
 					ops = append(ops, sgOp{Kind: "setconfig", Peer: p, A: m})
 				case x < 8:
 					ops = append(ops, sgOp{Kind: "createdc", Peer: p}, sgOp{Kind: "offer", Peer: p}, sgOp{Kind: "setlocal", Peer: p, A: -1})
@@ -395,6 +413,32 @@ func sgGenFor(prop string) func(seed uint64, idx, total int, tier string) any {
 			}
 		default: // C06 C07 C08 C09 C10 C11 C12 C16: media changes interleaved with renegotiations and foreign offers
 			n := r.Range(4, 14)
+			if (prop == "C06" || prop == "C09") && r.Bool(0.15) {
+				// a media-only session to which one renegotiation adds a transceiver and the first data channel
+				p := r.Intn(2)
+				q := vfPick(r, []int{p, 1 - p})
+				ops = append(ops, sgOp{Kind: "addtrack", Peer: p, A: r.Intn(2)})
+				ops = sgExchange(ops, p)
+				ops = append(ops, sgGenMedia(r, q), sgOp{Kind: "addtransceiver", Peer: q, A: r.Intn(2), B: r.Intn(3)}, sgOp{Kind: "createdc", Peer: q})
+				ops = sgExchange(ops, q)
+				ops = append(ops, sgOp{Kind: "addtransceiver", Peer: q, A: r.Intn(2), B: r.Intn(3)})
+				ops = sgExchange(ops, vfPick(r, []int{p, 1 - p}))
+				n = len(ops) + r.Range(0, 4)
+			}
+			if prop == "C08" && r.Bool(0.2) {
+				// both peers send, then one or both take their track away before the next exchange
+				p, k := r.Intn(2), r.Intn(2)
+				ops = append(ops, sgOp{Kind: "addtrack", Peer: p, A: k}, sgOp{Kind: "addtrack", Peer: 1 - p, A: k})
+				ops = sgExchange(ops, p)
+				if r.Bool(0.7) {
+					ops = append(ops, sgOp{Kind: "removetrack", Peer: 1 - p, A: 0})
+				}
+				if r.Bool(0.7) {
+					ops = append(ops, sgOp{Kind: "removetrack", Peer: p, A: 0})
+				}
+				ops = sgExchange(ops, vfPick(r, []int{p, p, 1 - p}))
+				n = len(ops) + r.Range(0, 4)
+			}
 			if r.Bool(0.7) {
 				ops = append(ops, sgGenMedia(r, 0))
 			}
@@ -404,6 +448,11 @@ func sgGenFor(prop string) func(seed uint64, idx, total int, tier string) any {
 				p := r.Intn(2)
 				if r.Bool(0.5) {
 					ops = append(ops, sgOp{Kind: "addtransceiver", Peer: p, A: r.Intn(2), B: 2}, sgOp{Kind: "codecprefs", Peer: p, A: r.Intn(4), B: r.Intn(4)})
+					if r.Bool(0.5) {
+						// something looks at the transceiver's codecs before the remote offer arrives: an own
+						// offer that is then discarded (glare)
+						ops = append(ops, sgOp{Kind: "offer", Peer: p})
+					}
 				}
 				ops = append(ops, sgOp{Kind: "foreign-offer", Peer: p, A: r.Intn(8)}, sgOp{Kind: "addtrack", Peer: p, A: r.Intn(2)}, sgOp{Kind: "addtrack", Peer: p, A: r.Intn(2)},
 					sgOp{Kind: "answer", Peer: p}, sgOp{Kind: "setlocal", Peer: p, A: -1},
